@@ -26,6 +26,7 @@ inductive Out
   | send (to : Nat) (m : Msg)
   | deliver (id : Nat) (ok : Bool) (tag : Nat)   -- handed to the local caller waiting on request `id`
   | sendErr                                       -- SendControlRequest returned an error to its caller
+  | cancelled (id : Nat)                          -- the caller of request `id` gave up (ctx.Done)
   deriving DecidableEq, Repr
 
 structure Ag where
@@ -44,6 +45,12 @@ def issue (a : Ag) (target : Nat) : Ag × List Out :=
   else
     let id := a.next + 1
     ({ a with next := id, pending := a.pending.set id () }, [.send target (.req id target [])])
+
+/-- The caller of local request `id` gives up (context cancelled or timed out): the pending entry is
+    dropped; the request itself is in flight and may still be answered, so `nextControlID` keeps its
+    value — the id is never handed out again. -/
+def cancel (a : Ag) (id : Nat) : Ag × List Out :=
+  if (a.pending.get id).isSome then ({ a with pending := a.pending.del id }, [.cancelled id]) else (a, [])
 
 /-- next hop and remaining path of a request that is not for us. -/
 def hopOf (a : Ag) (target : Nat) (path : List Nat) : Option (Nat × List Nat) :=
@@ -91,7 +98,8 @@ def Net.absorb (n : Net) (i : Nat) (a : Ag) (outs : List Out) : Net :=
   outs.foldl (fun n o => match o with
     | .send to m => if a.peers.contains to then { n with queue := n.queue ++ [(i, to, m)] } else n
     | .deliver id ok tag => { n with delivered := n.delivered ++ [(i, id, ok, tag)] }
-    | .sendErr => n) n
+    | .sendErr => n
+    | .cancelled _ => n) n
 
 /-- agent `i` issues a request toward `target`. -/
 def Net.issue (n : Net) (i target : Nat) : Net :=
